@@ -16,7 +16,7 @@ PowerWhenOn == 2600
 
 NewDevice(fam, code, id, key, name, ip, mac) ==
   [fam |-> fam, code |-> code, id |-> id, key |-> key, name |-> name, ip |-> ip, mac |-> mac,
-   power |-> 0, remaining |-> 0, autoOff |-> DefaultAutoOff, slots |-> <<>>,
+   power |-> 0, remaining |-> 0, onFor |-> 0, autoOff |-> DefaultAutoOff, slots |-> <<>>,
    position |-> 0, direction |-> <<0, 0>>,
    th |-> [state |-> 0, mode |-> 4, target |-> 24, fan |-> 1, swing |-> 0, temp10 |-> 250, remote |-> <<69, 76, 69, 67, 55, 48, 50, 50>>]]
 
@@ -26,8 +26,9 @@ Least(a, b) == IF a < b THEN a ELSE b
 Apply(dev, f) ==
   CASE f.kind = "control" ->
          IF f.on = 1
-         THEN [dev EXCEPT !.power = 1, !.remaining = Least(86399, IF Secs(f.timer) > 0 THEN Secs(f.timer) ELSE dev.autoOff)]
-         ELSE [dev EXCEPT !.power = 0, !.remaining = 0]
+         THEN [dev EXCEPT !.power = 1, !.remaining = Least(86399, IF Secs(f.timer) > 0 THEN Secs(f.timer) ELSE dev.autoOff),
+                          !.onFor = IF dev.power = 1 THEN @ ELSE 0]
+         ELSE [dev EXCEPT !.power = 0, !.remaining = 0, !.onFor = 0]
     [] f.kind = "autooff" -> [dev EXCEPT !.autoOff = Least(86399, Secs(f.secs))]
     [] f.kind = "setname" -> [dev EXCEPT !.name = StripNul(f.name)]
     [] f.kind = "createschedule" -> [dev EXCEPT !.slots = Append(@, <<f.mask>> \o f.start \o f.end)]
@@ -40,7 +41,8 @@ Apply(dev, f) ==
 \* time passes: the timer counts down and the device switches off when it reaches zero
 Elapse(dev, s) ==
   IF dev.fam \in {"heater", "plug"} /\ dev.power = 1
-  THEN IF dev.remaining > s THEN [dev EXCEPT !.remaining = @ - s] ELSE [dev EXCEPT !.power = 0, !.remaining = 0]
+  THEN IF dev.remaining > s THEN [dev EXCEPT !.remaining = @ - s, !.onFor = Least(86399, @ + s)]
+       ELSE [dev EXCEPT !.power = 0, !.remaining = 0, !.onFor = 0]
   ELSE dev
 
 \* what a broadcast of this device must decode to (the fields the bridge reports)
@@ -60,4 +62,29 @@ BroadcastOf(dev, base) ==
                                                           remaining |-> dev.remaining, auto |-> dev.autoOff])
     [] dev.fam = "shutter" -> EncodeDevice(base, "shutter", dev.code, common @@ [position |-> dev.position, direction |-> dev.direction])
     [] dev.fam = "thermo" -> EncodeDevice(base, "thermo", dev.code, common @@ dev.th)
+
+\* what the device answers to a state query over TCP (fields placed into any base string long enough), and what the client
+\* must then report (C08, end to end).  Unlike a broadcast, a state reply is reported as it is: no OFF normalisation.
+StateReplyOf(dev, base) ==
+  CASE dev.fam \in {"heater", "plug"} ->
+         EncodeState1(base, [state |-> dev.power, watts |-> IF dev.power = 1 THEN PowerWhenOn ELSE 0,
+                             left |-> dev.remaining, on |-> dev.onFor, auto |-> dev.autoOff])
+    [] dev.fam = "shutter" -> EncodeShutter(base, [position |-> dev.position, direction |-> dev.direction])
+    [] dev.fam = "thermo" -> EncodeThermo(base, dev.th)
+Readback(dev) ==
+  CASE dev.fam \in {"heater", "plug"} ->
+         [state |-> dev.power, watts |-> IF dev.power = 1 THEN PowerWhenOn ELSE 0,
+          left |-> HHMMSS(dev.remaining), on |-> HHMMSS(dev.onFor), auto |-> HHMMSS(dev.autoOff)]
+    [] dev.fam = "shutter" -> [position |-> dev.position, direction |-> dev.direction]
+    [] dev.fam = "thermo" -> [state |-> dev.th.state, mode |-> dev.th.mode, target |-> dev.th.target, fan |-> dev.th.fan,
+                              swing |-> dev.th.swing, temp10 |-> dev.th.temp10, remote |-> dev.th.remote]
+\* the two views of one device state - a broadcast heard by the bridge and a state reply read by the API object - agree on
+\* everything both of them carry
+ViewsAgree(dev) ==
+  LET r == Reported(dev) q == Readback(dev) IN
+  CASE dev.fam = "heater" -> r.state = q.state /\ r.watts = q.watts /\ r.remaining = q.left /\ r.auto = q.auto
+    [] dev.fam = "plug" -> r.state = q.state /\ r.watts = q.watts
+    [] dev.fam = "shutter" -> r.position = q.position /\ r.direction = q.direction
+    [] dev.fam = "thermo" -> r.state = q.state /\ r.mode = q.mode /\ r.target = q.target /\ r.fan = q.fan /\ r.swing = q.swing
+                             /\ r.temp10 = q.temp10 /\ r.remote = q.remote
 =============================================================================
